@@ -11,6 +11,7 @@
   and compares with bit patterns the harness extracts independently.
 -/
 import Dlismodel.Proofs.Data
+import Dlismodel.Proofs.Cast
 namespace Dlis.C03
 open Dlis
 
@@ -49,6 +50,34 @@ theorem window_rows {α : Type} (rows : List α) (fromIdx : Nat) (toIdx : Option
 /-- a single element is its big-endian image: bit-exactness -/
 theorem element_bits (size e : Nat) (rest : Bytes) (h : e < 256 ^ size) :
     rdN size (beN size e ++ rest) = some (e, rest) := rdN_beN size e rest h
+
+/-! ### a declared cast between integer types (`Model/Cast.lean`) -/
+
+/-- whatever integer the source holds, the element written under the cast type `t` exists (never an encoding error),
+and under `t`'s representation code it decodes to `castInt t v`, which `t` holds -/
+theorem cast_element_roundtrip (t : IntTy) (hb : 0 < t.bytes) (v : Int) :
+    t.holds (castInt t v) ∧
+    ∃ bs, encInt t (castInt t v) = .ok bs ∧ bs.length = t.bytes ∧
+      ∀ rest, decInt t (bs ++ rest) = some (castInt t v, rest) := by
+  refine ⟨castInt_holds t hb v, ?_⟩
+  obtain ⟨bs, h⟩ := encInt_castInt_ok t hb v
+  refine ⟨bs, h, ?_, fun rest => decInt_encInt t hb _ bs rest h⟩
+  unfold encInt at h
+  cases hs : t.signed
+  · simp only [hs, Bool.false_eq_true, if_false] at h; exact encU_length h
+  · simp only [hs, if_true] at h
+    unfold encS at h; split at h <;> simp at h; subst h; simp
+
+/-- a cast to a type that holds the value leaves it as it is: the decoded sample is the source sample -/
+theorem cast_exact_when_held (t : IntTy) (hb : 0 < t.bytes) (v : Int) (h : t.holds v) : castInt t v = v :=
+  castInt_exact t hb v h
+
+/-- otherwise the written sample is the source sample modulo 2^bits (numpy's documented wrap-around), nothing else -/
+theorem cast_wraps (t : IntTy) (v : Int) : castInt t v % (256 : Int) ^ t.bytes = v % (256 : Int) ^ t.bytes :=
+  castInt_congr t v
+
+example : castInt ⟨1, false⟩ 300 = 44 ∧ castInt ⟨1, true⟩ 200 = -56 ∧ castInt ⟨2, true⟩ (-40000) = 25536 ∧
+    castInt ⟨4, false⟩ (-1) = 4294967295 ∧ castInt ⟨2, false⟩ 65535 = 65535 := by decide
 
 /-! non-vacuity: two rows, a float64 NaN payload / -0.0 and a 3-wide uint8 channel, chunk size 1 -/
 example :
